@@ -63,18 +63,23 @@ func genMulti(t *rapid.T) multiCase {
 	return c
 }
 
-// buildStream writes the alignments one after the other with the Phylip writer
-func buildStream(alis []gen.Ali, strict bool, opts []phyOpt) (text string, want []model, err error) {
-	var sb strings.Builder
+// buildTexts writes each alignment (base rows repeated reps[i] times) with the Phylip writer
+func buildTexts(alis []gen.Ali, reps []int, strict bool, opts []phyOpt) (texts []string, want []model, err error) {
 	for i, a := range alis {
-		al, m, e := buildModel(a)
+		al, m, e := buildModel(expand(a, repAt(reps, i)))
 		if e != nil {
-			return "", nil, e
+			return nil, nil, e
 		}
 		want = append(want, m)
-		sb.WriteString(phylip.WriteAlignment(al, strict, opts[i].OneLine, opts[i].NoBlock))
+		texts = append(texts, phylip.WriteAlignment(al, strict, opts[i].OneLine, opts[i].NoBlock))
 	}
-	return sb.String(), want, nil
+	return texts, want, nil
+}
+
+// buildStream writes the alignments one after the other with the Phylip writer
+func buildStream(alis []gen.Ali, strict bool, opts []phyOpt) (text string, want []model, err error) {
+	texts, want, err := buildTexts(alis, nil, strict, opts)
+	return strings.Join(texts, ""), want, err
 }
 
 func checkMulti(c multiCase) (o pbt.Outcome, err error) {
